@@ -566,7 +566,10 @@ Step ==
          \* a finally block that runs while an exception propagates raises an exception of its own (necessarily an
          \* implicit one): what such a block does is outside the guarantee, and so is everything that follows from it
          pend == \E i \in 1..Len(ctrl) : ctrl[i].k = "finally" /\ ctrl[i].comp[1] = "exc"
-         infin == how' = "exc" /\ ~resumed /\ pend IN
+         \* ... and so is a raise in a finally block that abandons a pending return / break / continue (the mirror image of
+         \* the documented limit "return/break/continue inside finally")
+         pendAny == \E i \in 1..Len(ctrl) : ctrl[i].k = "finally" /\ ctrl[i].comp # NoComp
+         infin == how' = "exc" /\ ~resumed /\ pendAny IN
      /\ xlog' = IF how' = "exc" /\ ~resumed THEN Len(log') ELSE xlog
      /\ xnode' = IF how' = "exc" /\ ~resumed THEN cur' ELSE xnode
      /\ xfirst' = IF how' = "exc" /\ ~resumed /\ xfirst = 0 THEN cur' ELSE xfirst
